@@ -78,6 +78,8 @@ def _one(prop, tier):
             param_used(ctx, f"{prop}.param-used", files)
             from .rules.common_pitfalls import pitfalls
             pitfalls(ctx, f"{prop}.pitfalls", files)
+            from .rules.common_pitfalls import dead_definitions
+            dead_definitions(ctx, f"{prop}.pitfalls", files)
             from .rules.common_params import option_forwarding, attribute_swap
             option_forwarding(ctx, f"{prop}.param-used", files)
             attribute_swap(ctx, f"{prop}.attr-swap", files)
